@@ -71,7 +71,7 @@ def contracts():
         r matches Ok(c) ==> roots_match(c.roots@, roots_content(root_certs@)) && !c.insecure@, //@C18.client_roots_are_the_configured_files
 """, loops={1: """
     invariant roots_match(client_builder.roots@, roots_content(root_certs@.take(it.index@))), !client_builder.insecure@,
-"""}, at=[("before", "root_certs.iter()", 1, "it:"),
+"""}, at=[("loop_iter", None, 1, "it:"),
           ("loop_start", None, 1, "let ghost cb0 = client_builder;"),
           ("before_stmt", "for crt_file", 1, "proof { assert(roots_content(root_certs@.take(0)) =~= Seq::<Seq<u8>>::empty()); }"),
           ("loop_end", None, 1, """
@@ -106,7 +106,7 @@ def contracts():
         crate::DEFAULT_HTTP_FAIL_NB_RETRY == 10, //@C08.retry_constant_is_10
         // a further round is reached only after a non-2xx answer whose problem document names a recoverable type
         it.index@ > 0 ==> !w.net.last_success && recoverable_body(w.net.last_body), //@C08.retry_only_after_recoverable_error
-"""}, at=[("before", "0..crate::DEFAULT_HTTP_FAIL_NB_RETRY", 1, "it:"),
+"""}, at=[("loop_iter", None, 1, "it:"),
           ("before_stmt", ".send(", 1, """
         proof {
             // history variable: the body about to be sent was built, in this round, from exactly (stored nonce, this url)
@@ -130,7 +130,7 @@ def contracts():
         crate::DEFAULT_POOL_NB_TRIES == 20, //@C08.poll_constant_is_20
         w.net.posts <= old(w).net.posts + it.index@ * 10, //@C08.one_request_per_poll
 """}
-    pool_at = [("before", "0..crate::DEFAULT_POOL_NB_TRIES", 1, "it:")]
+    pool_at = [("loop_iter", None, 1, "it:")]
     c["pool_authorization"] = FnSpec(ret="r", ghost=True, sig=pool_sig, loops=pool_loop, at=pool_at)
     c["pool_order"] = FnSpec(ret="r", ghost=True, sig=pool_sig, loops=pool_loop, at=pool_at)
     c["get_certificate"] = FnSpec(ret="r", ghost=True, sig="    requires" + NET_PRE + DB_PRE + "    ensures" + NET_POST + """
